@@ -299,9 +299,17 @@ pub fn prim(scn: &Value) -> Value {
 // C20
 // ------------------------------------------------------------------------------------
 
+/// a payload key as a field of a larger value: it sits at offset 1 of the heap block (PayloadKey has alignment 1)
+#[repr(C)]
+struct Embedded {
+    tag: u8,
+    key: PayloadKey,
+}
+
 enum Obj {
     Priv(PrivateKey),
     Pay(Box<PayloadKey>),
+    Emb(Box<Embedded>),
 }
 
 impl Obj {
@@ -309,6 +317,7 @@ impl Obj {
         match self {
             Obj::Priv(k) => k.as_bytes(),
             Obj::Pay(k) => k.as_bytes(),
+            Obj::Emb(e) => e.key.as_bytes(),
         }
     }
 }
@@ -367,6 +376,13 @@ fn erase_once(rng: &mut Rng, prog: &[Value], c: &mut EraseCounts) {
                         }
                         Obj::Priv(PrivateKey::try_from(&b[..]).unwrap())
                     }
+                    "payload_embedded" => {
+                        let mut b = rng.bytes32();
+                        for x in b.iter_mut() {
+                            *x |= 1;
+                        }
+                        Obj::Emb(Box::new(Embedded { tag: 1, key: PayloadKey::new(&b) }))
+                    }
                     _ => {
                         let mut b = rng.bytes32();
                         for x in b.iter_mut() {
@@ -390,6 +406,7 @@ fn erase_once(rng: &mut Rng, prog: &[Value], c: &mut EraseCounts) {
                 let cl = match &l.obj {
                     Obj::Priv(k) => Obj::Priv(k.clone()),
                     Obj::Pay(k) => Obj::Pay(k.clone()),
+                    Obj::Emb(e) => Obj::Emb(Box::new(Embedded { tag: e.tag, key: e.key.clone() })),
                 };
                 alloc::capture_stop();
                 c.leaked_blocks += alloc::captured_containing(&l.expect) as u64;
